@@ -70,7 +70,10 @@ func checkOffer(t fataler, w *sim.World, r *sim.Replica, s *appstate.AppState, l
 	t.Helper()
 	seen := map[common.Hash]bool{}
 	next := map[common.Address]uint32{}
-	epoch := s.State.Epoch()
+	var epoch uint16
+	if strictStart {
+		epoch = s.State.Epoch()
+	}
 	for i, tx := range l {
 		h := tx.Hash()
 		if seen[h] {
@@ -90,8 +93,12 @@ func checkOffer(t fataler, w *sim.World, r *sim.Replica, s *appstate.AppState, l
 			}
 		}
 		if tx.AccountNonce != want {
-			t.Fatalf("offered list: %s has nonce %d where %d continues the sender's sequence (committed nonce %d, account epoch %d, epoch %d)\nlist: %s\n%s",
-				txDesc(w, tx), tx.AccountNonce, want, s.State.GetNonce(sender), s.State.GetEpoch(sender), epoch, txsDesc(w, l), ctx())
+			committed := "not read: the state moves during the run"
+			if strictStart {
+				committed = fmt.Sprintf("committed nonce %d, account epoch %d, epoch %d", s.State.GetNonce(sender), s.State.GetEpoch(sender), epoch)
+			}
+			t.Fatalf("offered list: %s has nonce %d where %d continues the sender's sequence (%s)\nlist: %s\n%s",
+				txDesc(w, tx), tx.AccountNonce, want, committed, txsDesc(w, l), ctx())
 		}
 		next[sender] = want + 1
 		gas += uint64(fee.CalculateGas(tx))
